@@ -542,7 +542,7 @@ theorem examineSnaps_go_cons (o : Oracles) (cleanup : List (RegKey × Nat)) (ski
             examineSnaps.go o cleanup skipped runOnly count update sort rest fs (obs ++ st.obsolete) written
           else
             let ids := if shouldSort then sortNat st.testIDs else st.testIDs
-            if shouldSort && !(allPairsOrdered ids) then .unsupportedOrder else
+            if shouldSort && !(allPairsOrdered ids && pairwiseComparable ids) then .unsupportedOrder else
             let frames := rewriteFrames st.tests ids
             if frames.any (·.isNone) then .badFormat else
             examineSnaps.go o cleanup skipped runOnly count update sort rest
@@ -594,7 +594,7 @@ def cleanOutcome (K : Text → Bool) (es : List Entry) (p : Text) (fs : FS) (upd
   if !shouldUpdate && !shouldSort then .ok stale fs []
   else
     let ids' := if shouldSort then sortNat ids else ids
-    if shouldSort && !(allPairsOrdered ids') then .unsupportedOrder
+    if shouldSort && !(allPairsOrdered ids' && pairwiseComparable ids') then .unsupportedOrder
     else .ok stale (fsWrite fs p (render (reorder (es.filter (fun e => K (tidOf e) || !update)) ids'))) [p]
 
 theorem examineSnaps_single (fs : FS) (cleanup : List (RegKey × Nat)) (p : Text) (count : Nat)
@@ -676,6 +676,47 @@ theorem allPairsOrdered_iff (l : List Text) : allPairsOrdered l = true ↔ l.Pai
     simp only [allPairsOrdered, Bool.and_eq_true, List.all_eq_true, Bool.not_eq_true', ih,
       List.pairwise_cons, NatLe]
 
+/-- two ids are comparable: equal, or ordered one way or the other -/
+def Comparable (x y : Text) : Prop := x = y ∨ natLt x y = true ∨ natLt y x = true
+
+theorem Comparable.symm {x y : Text} (h : Comparable x y) : Comparable y x := by
+  rcases h with h | h | h
+  · exact Or.inl h.symm
+  · exact Or.inr (Or.inr h)
+  · exact Or.inr (Or.inl h)
+
+theorem pairwiseComparable_iff (l : List Text) :
+    pairwiseComparable l = true ↔ l.Pairwise Comparable := by
+  induction l with
+  | nil => simp [pairwiseComparable]
+  | cons x l ih =>
+    simp only [pairwiseComparable, Bool.and_eq_true, List.all_eq_true, Bool.or_eq_true,
+      decide_eq_true_eq, ih, List.pairwise_cons, Comparable, or_assoc]
+
+/-- a comparator that is total on the ids present makes every two of them comparable -/
+theorem pairwiseComparable_of_totalOn (l : List Text) (ht : TotalOn l) :
+    pairwiseComparable l = true := by
+  rw [pairwiseComparable_iff]
+  induction l with
+  | nil => exact List.Pairwise.nil
+  | cons x l ih =>
+    rw [List.pairwise_cons]
+    refine ⟨?_, ih (ht.mono (fun z hz => by simp [hz]))⟩
+    intro y hy
+    by_cases e : x = y
+    · exact Or.inl e
+    · exact Or.inr (ht.total x (by simp) y (by simp [hy]) e)
+
+theorem pairwiseComparable_perm {l₁ l₂ : List Text} (hp : l₁.Perm l₂) :
+    pairwiseComparable l₁ = pairwiseComparable l₂ := by
+  have := hp.pairwise_iff (R := Comparable) (fun h => h.symm)
+  rw [← pairwiseComparable_iff, ← pairwiseComparable_iff] at this
+  cases h1 : pairwiseComparable l₁ <;> cases h2 : pairwiseComparable l₂ <;> simp_all
+
+theorem pairwiseComparable_sublist {l₁ l₂ : List Text} (hs : l₁.Sublist l₂)
+    (h : pairwiseComparable l₂ = true) : pairwiseComparable l₁ = true :=
+  (pairwiseComparable_iff _).mpr (List.Pairwise.sublist hs ((pairwiseComparable_iff _).mp h))
+
 theorem insertNat_perm (x : Text) (l : List Text) : (insertNat x l).Perm (x :: l) := by
   induction l with
   | nil => simp [insertNat]
@@ -729,6 +770,13 @@ theorem sortNat_pairwise (l : List Text) (ht : TotalOn l) : (sortNat l).Pairwise
     apply insertNat_pairwise
     · exact ht.perm (List.Perm.cons x (sortNat_perm l).symm)
     · exact ih (ht.mono (fun z hz => by simp [hz]))
+
+/-- under `TotalOn` the check `examineSnaps` makes after sorting always passes -/
+theorem sort_check_passes (l : List Text) (ht : TotalOn l) :
+    (allPairsOrdered (sortNat l) && pairwiseComparable (sortNat l)) = true := by
+  rw [Bool.and_eq_true]
+  exact ⟨(allPairsOrdered_iff _).mpr (sortNat_pairwise l ht),
+    pairwiseComparable_of_totalOn _ (ht.perm (sortNat_perm l).symm)⟩
 
 /-- a list has at most one pairwise-ordered permutation -/
 theorem pairwise_perm_unique (l₁ l₂ : List Text) (ht : TotalOn l₁) (hp : l₁.Perm l₂)
